@@ -96,6 +96,12 @@ def gen_cases(tier, seed):
     # a package without any resource (metadata only) is a package all the same
     for i in range(2):
         yield {'family': 'no_resources', 'idx': 10 ** 6 + i, 'seed': seed}
+    # a first attempt that FAILS (a step before the checkpoint raises at some row): the next run must equal a clean run
+    for i in range({'quick': 8, 'thorough': 64}[tier]):
+        yield {'family': 'failed_first_run', 'idx': 2 * 10 ** 6 + i, 'seed': seed}
+    # a resource without fields (all of them deleted) still has rows - empty mappings - and is followed by others
+    for i in range({'quick': 4, 'thorough': 24}[tier]):
+        yield {'family': 'fieldless_resource', 'idx': 3 * 10 ** 6 + i, 'seed': seed}
 
 
 def run_no_resources(case):
@@ -135,6 +141,100 @@ def run_no_resources(case):
     return dict(nontrivial=True, violations=viol, cov=cov, counters=counters, sample={'config': cfg})
 
 
+def run_failed_first(case):
+    rng = boot.rng(case['seed'], 'C07', 'failed_first', case['idx'])
+    d = lab.df()
+    counters = {'resumed_runs': 0, 'rows_compared': 0}
+    sizes = [rng.choice([1, 2, 6, 40]) for _ in range(rng.choice([1, 2]))]
+    tables = [[{'id': r * 100 + i, 'v': 'r%d-%d' % (r, i)} for i in range(n)] for r, n in enumerate(sizes)]
+    fields = [{'name': 'id', 'type': 'integer'}, {'name': 'v', 'type': 'string'}]
+    fj = rng.randrange(len(sizes))
+    fk = rng.choice([0, sizes[fj] // 2, sizes[fj] - 1, 'end'])
+    where = rng.choice(['before_checkpoint', 'after_checkpoint'])
+    cfg = {'family': 'failed_first_run', 'sizes': sizes, 'fails_at': [fj, fk], 'failing_step': where}
+
+    def flow(cpdir, failing):
+        def fail(package):
+            yield package.pkg
+            for j, res in enumerate(package):
+                def it(res=res, j=j):
+                    for n, row in enumerate(res):
+                        if failing and j == fj and n == fk:
+                            raise RuntimeError('step failed')
+                        yield row
+                    if failing and j == fj and fk == 'end':
+                        raise RuntimeError('step failed at the end of the resource')
+                yield it()
+        steps = [lab.source('res%d' % i, fields, t) for i, t in enumerate(tables)]
+        cp = d.checkpoint('cp', checkpoint_path=cpdir)
+        steps += [fail, cp] if where == 'before_checkpoint' else [cp, fail]
+        return steps + [d.add_field('z', 'integer', 9)]
+    viol = []
+    clean = lab.run(flow('cp_clean', False), validate=True)
+    assert clean.ok, clean.errstr()
+    first = lab.run(flow('cp_hist', True), validate=True)
+    if first.ok:
+        return dict(nontrivial=False, violations=[], counters=counters, cov={'value_class': {}, 'history': {}},
+                    inconclusive='the failing first run did not fail')
+    # the failed attempt is over and forgotten (its exception, frames and suspended generators are gone) when the next
+    # run starts - as in a new process
+    import gc
+    del first
+    gc.collect()
+    second = lab.run(flow('cp_hist', False), validate=True)
+    counters['resumed_runs'] += 1
+    if not second.ok:
+        viol.append({'kind': 'run_failed', 'mech': 'run_failed/after_failed_first_run', 'config': cfg,
+                     'msg': '%r: the run after a failed first attempt failed: %s' % (cfg, second.errstr())})
+    else:
+        for a, b in zip(clean.results, second.results):
+            counters['rows_compared'] += len(a)
+        if [len(r) for r in second.results] != [len(r) for r in clean.results] or \
+                any(lab.rows_diff(a, b, 1) for a, b in zip(clean.results, second.results)):
+            viol.append({'kind': 'row_count', 'mech': 'half_written_checkpoint_resumed', 'config': cfg,
+                         'msg': '%r: the run after a failed first attempt returned %r rows, a clean run %r'
+                         % (cfg, [len(r) for r in second.results], [len(r) for r in clean.results])})
+    return dict(nontrivial=True, violations=viol, counters=counters,
+                cov={'value_class': {}, 'history': {'failed_first_run/%s/%s' % (where, 'end' if fk == 'end' else 'row'): 1}},
+                sample={'config': cfg})
+
+
+def run_fieldless(case):
+    rng = boot.rng(case['seed'], 'C07', 'fieldless', case['idx'])
+    d = lab.df()
+    counters = {'resumed_runs': 0, 'rows_compared': 0}
+    n0, n1 = rng.choice([1, 4, 30]), rng.choice([0, 2, 9])
+    position = rng.choice(['first', 'middle', 'last'])
+    cfg = {'family': 'fieldless_resource', 'rows': [n0, n1], 'position_of_fieldless_resource': position}
+    f2 = [{'name': 'a', 'type': 'integer'}, {'name': 'b', 'type': 'string'}]
+
+    def flow():
+        typed = lambda name, base: lab.source(name, f2, [{'a': base + i, 'b': 'x%d' % i} for i in range(n1)])  # noqa: E731
+        empty = lab.source('bare', f2, [{'a': i, 'b': 'y'} for i in range(n0)])
+        srcs = {'first': [empty, typed('t1', 100)], 'last': [typed('t1', 100), empty],
+                'middle': [typed('t1', 100), empty, typed('t2', 200)]}[position]
+        return srcs + [d.delete_fields(['a', 'b'], resources='bare'), d.checkpoint('cp', checkpoint_path='cpf'),
+                       d.update_package(title='after')]
+    viol = []
+    first = lab.run(flow(), validate=True)
+    if not first.ok:
+        return dict(nontrivial=False, violations=[], counters=counters, cov={'value_class': {}, 'history': {}},
+                    inconclusive='first run with a field-less resource failed: %s' % first.errstr())
+    second = lab.run(flow(), validate=True)
+    counters['resumed_runs'] += 1
+    if not second.ok:
+        viol.append({'kind': 'run_failed', 'mech': 'run_failed/fieldless_resource', 'config': cfg,
+                     'msg': '%r: resumed run failed: %s' % (cfg, second.errstr())})
+    else:
+        counters['rows_compared'] += sum(len(r) for r in first.results)
+        if first.results != second.results or first.names != second.names:
+            viol.append({'kind': 'row_count', 'mech': 'fieldless_resource_rows', 'config': cfg,
+                         'msg': '%r: resumed run returned %r rows per resource, the first run %r'
+                         % (cfg, [len(r) for r in second.results], [len(r) for r in first.results])})
+    return dict(nontrivial=True, violations=viol, counters=counters,
+                cov={'value_class': {}, 'history': {'fieldless_resource/%s' % position: 1}}, sample={'config': cfg})
+
+
 def key_orders(v):
     """the key order of every dict nested in v (lists keep their positions)."""
     if isinstance(v, dict):
@@ -160,6 +260,10 @@ def val_eq(a, b):
 def run_case(case):
     if case['family'] == 'no_resources':
         return run_no_resources(case)
+    if case['family'] == 'failed_first_run':
+        return run_failed_first(case)
+    if case['family'] == 'fieldless_resource':
+        return run_fieldless(case)
     rng = boot.rng(case['seed'], 'C07', case['idx'])
     d = lab.df()
     counters = {'resumed_runs': 0, 'rows_compared': 0}
